@@ -43,6 +43,11 @@ def layers(prop, tier):
             for lw in wins:
                 jobs.append({'prop': prop, 'gen': {'gen': 'univ', 'K': Kw, 'Kr': Kw, 'lwin': list(lw)},
                              'meas': meas, 't': t, 'op': '>=', 'pres': pres})
+            # rows in descending size order (the longest record first) and pandas str columns
+            jobs.append({'prop': prop, 'gen': {'gen': 'univ', 'K': Kw, 'order': 'rev'}, 'meas': meas, 't': t,
+                         'op': '>=', 'pres': pres})
+            jobs.append({'prop': prop, 'gen': {'gen': 'univ', 'K': Kw - 1, 'order': 'rev'}, 'meas': meas, 't': t,
+                         'op': '>=', 'pres': 4 + (len(jobs) % 2), 'n_jobs': 2})
             for kr in (Kw - 2, Kw + 1):
                 jobs.append({'prop': prop, 'gen': {'gen': 'univ', 'K': Kw, 'Kr': kr},
                              'meas': meas, 't': t, 'op': '>=', 'pres': pres})
@@ -130,6 +135,15 @@ def layers(prop, tier):
                     '(rows must neither be lost nor invented), n_jobs 1,2', min_nontrivial=100, chunksize=4))
     if prop != 'C01':
         return Ls
+    # (g) reduction-lemma self-test under injected weakened arithmetic (harness validity, not a property)
+    Kl = 6 if quick else 7
+    jobs = [{'meas': meas, 't': t, 'mode': mode, 'K': Kl} for meas in PRUNED_MEASURES
+            for t in (0.2, 0.25, 0.3, 1.0 / 3, 0.4, 0.5, 0.6, 2.0 / 3, 0.75, 0.8) for mode in ('prefix', 'overlap')]
+    Ls.append(Layer('lemma-selftest', 'checks.setjoin:w_lemma', jobs,
+                    'reduction lemma: with the prefix shortened by one / the required overlap raised by one '
+                    '(injected by the harness, restored afterwards) every (m,n,o) lost by the join under some '
+                    'arrangement of UNIV(%d) is also lost under the extremal arrangement; failures are reported '
+                    'as lemma_failures in the evidence, never as violations' % Kl, min_nontrivial=100, chunksize=2))
     # (f) arithmetic loss model with replay on the join
     NA = 64 if quick else 128
     jobs = []
